@@ -1,5 +1,6 @@
 """C18 - a finished flush leaves no garbage and unblocks ingestion."""
 from rules import durability as D
+from rules import units as U
 from rules import locking as L
 from rules import recovery as R
 
@@ -12,6 +13,7 @@ def run(ctx):
     D.ord4_atomic_store(ctx)
     R.flw15_flush_trigger(ctx)
     D.lit3_wal_file_names(ctx)
+    U.flw17_segment_id_units(ctx)
     return ctx.finish(
         'Static analysis of compiler MIR: the flush resets the accounted log size to 0 and '
         'notifies under the ingestion lock; every file of a merged-away partition and the frozen '
